@@ -384,6 +384,11 @@ fn obs_cert(c: Option<Vec<&Argument<usize>>>) -> Option<Vec<(usize, usize)>> {
 /// Execute a history on a fresh solver object; stops after the first panic and (the history being
 /// cut at its first deviation) after the first step the judge objects to.
 pub fn run_history(kind: DynKind, ops: &[Op], factory: Box<SatSolverFactoryFn>) -> Vec<StepObs> {
+    let note = || format!("some step of the history {:?} on {:?}", ops, kind);
+    crate::mem::with_note(&note, || run_history_inner(kind, ops, factory))
+}
+
+fn run_history_inner(kind: DynKind, ops: &[Op], factory: Box<SatSolverFactoryFn>) -> Vec<StepObs> {
     let mut out = Vec::with_capacity(ops.len());
     let mut judge = Judge::new(kind);
     let mut sut = match catch(|| make_sut(kind, factory)) {
@@ -644,6 +649,9 @@ pub struct Alphabet {
     pub queries_only: bool,
     /// continuations are update operations followed by exactly one final query
     pub updates_then_query: bool,
+    /// operations that a later phase will append to the histories enumerated now (the final query
+    /// of `updates_then_query` belongs to the last phase only)
+    pub tail: usize,
     /// number of history-tree nodes visited (prefixes)
     pub nodes: std::cell::Cell<u64>,
 }
@@ -729,7 +737,7 @@ impl Alphabet {
             return;
         }
         for op in self.ops(&s, bad_budget, queries) {
-            if self.updates_then_query && (op.is_query() != (depth == 1)) {
+            if self.updates_then_query && (op.is_query() != (depth == 1 && self.tail == 0)) {
                 continue;
             }
             let c = s.classify(&op);
